@@ -160,7 +160,9 @@ def run_cases(pid, cases, workdir):
     """Run every case on the implementation and in the model; return per-case (impl, model, diffs)."""
     progs = [c["prog"] for c in cases]
     impl = [lang.run_impl(p) for p in progs]
-    model = modelrun.run_model_fast(progs, workdir)
+    expanded = [lang.expand_macros(p) for p in progs]
+    model = modelrun.run_model_fast([e[0] for e in expanded], workdir)
+    model = [lang.collapse_macros(mo, e[1]) if len(mo) == len(e[0]) else mo for mo, e in zip(model, expanded)]
     out = []
     for c, im, mo in zip(cases, impl, model):
         diffs = []
